@@ -165,4 +165,33 @@ add(Contract(
                        ("untouched", "state.pos == P0 and state.pending == old(state.pending) and ntokens(state) == old(ntokens(state)) and state.level == old(state.level) and state.posMax == old(state.posMax)")],
                "dec": "len(state.src) - matchEnd"}},
 ))
-FUNCS = [RI + "newline.newline", SI + "scanDelims", RI + "emphasis.tokenize", RI + "strikethrough.tokenize", RI + "backticks.backtick"]
+
+# ---------------------------------------------------------------------------------------------- text (the fallback rule)
+def _terminators():
+    """the terminator characters, read from the real source (so a change to the set changes the contract with it)"""
+    from vf import src as S
+
+    mi = S.load_module("markdown_it.rules_inline.text")
+    return sorted(S.set_literal_codes(mi, "_TerminatorChars"))
+
+
+def TERM(e):
+    return "(" + " or ".join(f"{e} == {chr(c)!r}" for c in _terminators()) + ")"
+
+
+add(Contract(RI + "text._terminator_char_regex", params={}, assume_only=True, ghost={"returns_charclass": "_TerminatorChars"},
+             notes="compiled class of the terminator characters; that the pattern matches exactly the set literal is an ENUM obligation (complete enumeration of all code points)"))
+add(Contract(
+    RI + "text.text", params={"state": "obj:StateInline", "silent": "bool"}, result="bool", props=["C01", "C20", "C02"],
+    ghost={"defs": {"P0": "old(state.pos)"}},
+    # the regex search runs to the end of the source, not to posMax: the rule stays within posMax only because the callers
+    # that lower posMax (link and image, to the label end) put it on a terminator character (']')
+    requires=POSR + [("posMax-on-a-terminator", "state.posMax == len(state.src) or " + TERM("state.src[state.posMax]"))],
+    ensures=GENERIC + [
+        ("stops-at-first-terminator", "implies(result, forall(k, P0, state.pos, not " + TERM("state.src[k]") + ") and (state.pos == state.posMax or " + TERM("state.src[state.pos]") + "))", ["C02", "C01"]),
+        ("fails-only-on-a-terminator", "implies(not result, " + TERM("state.src[P0]") + ")", ["C01"]),
+        ("text-goes-to-pending", "implies(result and not silent, len(state.pending) == old(len(state.pending)) + (state.pos - P0) and "
+                                 "forall(k, 0, state.pos - P0, state.pending[old(len(state.pending)) + k] == state.src[P0 + k]))", ["C02", "C19"]),
+    ],
+))
+FUNCS = [RI + "newline.newline", SI + "scanDelims", RI + "emphasis.tokenize", RI + "strikethrough.tokenize", RI + "backticks.backtick", RI + "text.text"]
